@@ -59,6 +59,10 @@ def generate(tier, rng):
         x = (sx, nx, rng.randint(0, nx)); y = (sy, ny, rng.randint(0, ny))
         if rng.random() < 0.25:
             x = (sx, nx, rng.randint(-8, nx + 8)); y = (sy, ny, rng.randint(-8, ny + 8))
+        if rng.random() < 0.15:
+            # wide operands with negative fraction lengths (aligning the codes needs more than 64 bits) and quotients of a few bits
+            nx, ny = rng.randint(40, 52), rng.randint(20, 52)
+            x = (sx, nx, -rng.randint(0, 45)); y = (sy, ny, -rng.randint(0, 45))
         if result_word(op, x, y) > 53:
             continue
         lox, hix = lims(*x[:2]); loy, hiy = lims(*y[:2])
